@@ -26,6 +26,7 @@ class Ans:
         self.H = None; self.r = self.n = None
         self.LN = None; self.Y = None; self.B = ""
         self.steps = []      # (status, complete, srcmask, repmask)
+        self.dig = []        # digest of the decoder's internal state after each submission call (LDPC / 2D)
         self.F = None
         self.E = None; self.CB = []; self.RO = None; self.LK = None; self.PM = None
         if self.crash:
@@ -50,10 +51,12 @@ class Ans:
             elif tok.startswith("Q"):
                 self.Q = int(tok[1:])
             elif tok.startswith("S") or tok.startswith("F"):
-                head, sm, rm = tok.split(":")
+                parts = tok.split(":")
+                head, sm, rm = parts[0], parts[1], parts[2]
                 rec = (int(head[1]), int(head[2]), sm, rm)
                 if tok[0] == "S":
                     self.steps.append(rec)
+                    self.dig.append(parts[3] if len(parts) > 3 else None)
                 else:
                     self.F = rec
             elif tok.startswith("E"):
